@@ -1,4 +1,6 @@
 """C06 / C09 — security policy gate (P-stub) and rule semantics (B)."""
+import os
+
 POL = 'bus/policy.c'
 LIST = 'dbus/dbus-list.c'
 STR = 'dbus/dbus-string.c'
@@ -7,9 +9,9 @@ UNITS = [
     dict(name='C06.gate', props=['C06', 'C09'], kind='P', route='stub', bus=True,
          tus=[dict(file='bus/bus.c', include_as='VERIF_TU')], harness='harness/c06_gate.c',
          replace_calls={'dbus_set_error': 'verif_stub_dbus_set_error', 'complain_about_message': 'verif_stub_complain_about_message'},
-         timeout=300, expect_s=5,
-         must_have=['post3', 'post6a', 'post7b'],
-         functions=[dict(name='bus_context_check_security_policy', file='bus/bus.c', status='enforced', contract='11 typestate postconditions (DESIGN 6 C06)'),
+         timeout=300, expect_s=5, unwindset=['verif_name_is.0:64'],
+         must_have=['post3', 'post6a', 'post7b', 'post8b', 'post8e', 'post9', 'post10'],
+         functions=[dict(name='bus_context_check_security_policy', file='bus/bus.c', status='enforced', contract='11 typestate postconditions (DESIGN 6 C06) + denial => AccessDenied / LimitsExceeded (full queue) / callee error, no slot and nothing sent on refusal'),
                     dict(name='bus_client_policy_check_can_send/_can_receive', file='bus/policy.c', status='stub', note='contract: records policy used and requested_reply; verdict arbitrary (rule semantics are the C06 B units)'),
                     dict(name='bus_connections_check_reply/expect_reply', file='bus/connection.c', status='stub', note='contract: counts calls; semantics are the C09 B units'),
                     dict(name='bus_selinux_allows_send/bus_apparmor_allows_send', file='bus/selinux.c, bus/apparmor.c', status='assumed', note='arbitrary verdict; error set on denial')],
@@ -42,6 +44,9 @@ def rules(what, n, gap=0, tier='quick', expect_s=30, timeout=900):
     name = 'C06.%s_n%d' % (nm, n) + ('' if not gap else '.gapG%d' % gap)
     UNITS.append(dict(
         name=name, props=['C06'] + (['C09'] if what != 2 else []), kind='B', route='plain', bus=True, tier=tier,
+        # gap units: man-page/code differences kept out of the check (role finder) until triaged; run them with
+        # `VERIF_RUN_GAPS=1 ./verif check C06 --unit C06.send_n1.gapG1` ... (see spec/policy_ref.h, end)
+        role=('check' if (not gap or os.environ.get('VERIF_RUN_GAPS')) else 'finder'),
         tus=[dict(file=POL, include_as='VERIF_TU'), dict(file=LIST), dict(file=STR)], harness='harness/c06_rules.c',
         defines=['VERIF_WHAT=%d' % what, 'VERIF_N=%d' % n, 'VERIF_GAP=%d' % gap, 'SPEC_STR_MAX=6'], unwind=7, timeout=timeout, expect_s=expect_s,
         must_have=(['post1', 'post3'] if not gap else ['gapG%d' % gap]),
@@ -93,5 +98,29 @@ def opt(q, tier='quick', expect_s=60):
 
 
 opt(2, expect_s=30)
-opt(0, expect_s=200)
-opt(1, expect_s=200)
+opt(0, tier='thorough', expect_s=400)
+opt(1, tier='thorough', expect_s=300)
+
+UNITS.append(dict(
+    name='C06.create_client_policy', props=['C06'], kind='B', route='stub', bus=True,
+    tus=[dict(file=POL, include_as='VERIF_TU')], harness='harness/c06_create.c', extra_sources=['stubs/assert_stubs.c'],
+    defines=['VERIF_PART=0', 'VERIF_G=3'], unwind=5, timeout=600, expect_s=10,
+    replace_calls={'add_list_to_client': 'verif_stub_add_list_to_client', 'bus_client_policy_new': 'verif_stub_bus_client_policy_new',
+                   'bus_client_policy_unref': 'verif_stub_bus_client_policy_unref', 'bus_client_policy_optimize': 'verif_stub_bus_client_policy_optimize'},
+    must_have=['post3', 'order default -> groups -> user -> console -> mandatory'],
+    bounds={'groups_of_the_connection': 3, 'note': 'the only loop is the one over the connection\'s groups (unwound); everything else is loop-free typestate (T)'},
+    functions=[dict(name='bus_policy_create_client_policy', file=POL, status='bounded',
+                    contract='T: add_list_to_client called in the order default -> groups -> user -> console(true xor false) -> mandatory, each class the documented number of times, optimise last; NULL iff error; releases'),
+               dict(name='add_list_to_client', file=POL, status='stub', note='typestate contract requiring the order; its own behaviour is unit C06.add_list_to_client'),
+               dict(name='bus_client_policy_new/_unref/_optimize', file=POL, status='stub', note='count calls'),
+               dict(name='_dbus_hash_table_get_n_entries/_lookup_uintptr', file='dbus/dbus-hash.c', status='stub', note='ghost map gid/uid -> rule list; the hash table is never executed'),
+               dict(name='bus_connection_get_unix_groups, dbus_connection_get_unix_user, _dbus_unix_user_is_at_console, dbus_connection_get_is_authenticated', file='bus/connection.c, dbus/', status='assumed', note='credentials of the connection: arbitrary values; error set on failure')],
+    assumptions=['group ids of a connection are pairwise distinct (ghost map is a function)']))
+UNITS.append(dict(
+    name='C06.add_list_to_client', props=['C06'], kind='B', route='plain', bus=True,
+    tus=[dict(file=POL, include_as='VERIF_TU'), dict(file=LIST)], harness='harness/c06_create.c', extra_sources=['stubs/assert_stubs.c'],
+    defines=['VERIF_PART=1'], unwind=5, replace_calls={'bus_client_policy_append_rule': 'verif_stub_bus_client_policy_append_rule'}, timeout=600, expect_s=10, must_have=['post1', 'post2'],
+    bounds={'rules': 3},
+    functions=[dict(name='add_list_to_client', file=POL, status='bounded', contract='appends exactly the send/receive/own rules in list order; user/group rules are not per-connection'),
+               dict(name='bus_client_policy_append_rule', file=POL, status='stub', note='records the appended rule; may fail (OOM)')],
+    assumptions=[]))
